@@ -53,14 +53,20 @@ func runNextRet(c *Case) string {
 	k, _ := strconv.Atoi(c.get("backlog", "1"))
 	gate := make(chan struct{})
 	entered := make(chan struct{}, 1)
-	var seen, got99 int32
+	var seen, got99, after99 int32
 	obs := ro.NewObserver(func(v int) {
 		if atomic.AddInt32(&seen, 1) == 1 {
 			entered <- struct{}{}
 			<-gate
+		} else if v != 99 {
+			// the rest of the backlog is consumed slowly: a producer that is (wrongly) only waiting for the subscriber's
+			// lock, not for the end of the replay, gets the lock handed over between two replayed values
+			time.Sleep(300 * time.Microsecond)
 		}
 		if v == 99 {
 			atomic.StoreInt32(&got99, 1)
+		} else if atomic.LoadInt32(&got99) == 1 {
+			atomic.AddInt32(&after99, 1) // an OLDER value delivered after the newest one: order lost (C20: per-key order)
 		}
 	}, func(error) {}, func() {})
 
@@ -138,5 +144,10 @@ func runNextRet(c *Case) string {
 			return "res " + c.id + " _flag=next-never-returned"
 		}
 	}
-	return fmt.Sprintf("res %s early=%d delivered=%d", c.id, early, delivered)
+	time.Sleep(2 * time.Millisecond) // let a replay that is still running finish
+	order := "ok"
+	if atomic.LoadInt32(&after99) > 0 {
+		order = "overtaken"
+	}
+	return fmt.Sprintf("res %s early=%d delivered=%d order=%s", c.id, early, delivered, order)
 }
